@@ -99,7 +99,10 @@ void h_put_new(void) {
     } else {
         __CPROVER_assert(g_m.create_fails, "put of a new key fails only when the hash table cannot create the entry");
         lht_check(&g_a);
-        LHT_ASSERT_CALLS(0, NULL, 0, NULL, 1, fresh, 1);
+        /* a node allocated for the entry that could not be created is given back (no leak); whether one is allocated
+         * before the hash table is asked is the implementation's business */
+        LHT_ASSERT_CALLS(0, NULL, 0, NULL, g_m.calloc_calls, fresh, g_m.calloc_calls);
+        __CPROVER_assert(g_m.calloc_calls <= 1, "node storage: at most one allocation per put");
         CANARY("hash table could not create the entry");
     }
 }
